@@ -1142,3 +1142,136 @@ pub fn gen_c05(rng: &mut Rng, d: &mut Dist, _idx: u64) -> Vec<String> {
     }
     out
 }
+
+/// C06: histories of full loads, subset loads and resets over a cluster that changes in between (brokers added,
+/// dropped, moved to another address; leaders changed or removed; partition counts grown and shrunk; topics added),
+/// with the view and the routing probed after each step; bootstrap lists with unreachable hosts.
+pub fn gen_c06(rng: &mut Rng, d: &mut Dist, _idx: u64) -> Vec<String> {
+    let mut cl = Cluster::random(rng, 4, true);
+    while cl.brokers.len() < 2 {
+        let id = cl.brokers.len() as i32 + 1;
+        cl.brokers.push((id, format!("b{}", id), 9092));
+    }
+    let mut out = cl.setup_lines();
+    // bootstrap list: 1-4 hosts, any subset unreachable
+    let mut boots: Vec<String> = cl.brokers.iter().map(|b| format!("{}:{}", b.1, b.2)).collect();
+    if rng.chance(1, 3) {
+        boots.insert(0, "dead:1".to_string());
+    }
+    rng.shuffle(&mut boots);
+    let mut any_reachable = false;
+    for b in &boots {
+        let real = cl.brokers.iter().any(|x| format!("{}:{}", x.1, x.2) == *b);
+        if !real || rng.chance(1, 4) {
+            out.push(format!("H unreachable {}", h(b)));
+            bump(d, "bootstrap-unreachable");
+        } else {
+            any_reachable = true;
+        }
+    }
+    bump(d, if any_reachable { "bootstrap-some-reachable" } else { "bootstrap-none-reachable" });
+    out.push(format!("OP client_new {}", boots.iter().map(|b| h(b)).collect::<Vec<_>>().join(",")));
+    out.push("OP c load_metadata_all".into());
+    out.push("OP c topics".into());
+    // later connections to brokers must work: clear unreachability of real brokers after the bootstrap
+    for b in &boots {
+        if cl.brokers.iter().any(|x| format!("{}:{}", x.1, x.2) == *b) {
+            out.push(format!("H reachable {}", h(b)));
+        }
+    }
+    let mut next_id = 10;
+    let steps = 2 + rng.below(7);
+    for _ in 0..steps {
+        // mutate the cluster
+        match rng.below(8) {
+            0 => {
+                bump(d, "mut-broker-added");
+                let id = next_id;
+                next_id += 1;
+                cl.brokers.push((id, format!("n{}", id), 9092));
+                out.push(format!("BROKER {} {} 9092", id, h(&format!("n{}", id))));
+            }
+            1 => {
+                if cl.brokers.len() > 1 {
+                    bump(d, "mut-broker-dropped");
+                    let i = 1 + rng.below(cl.brokers.len() as u64 - 1) as usize;
+                    let b = cl.brokers.remove(i);
+                    out.push(format!("DELBROKER {}", b.0));
+                }
+            }
+            2 => {
+                bump(d, "mut-broker-moved");
+                let i = rng.below(cl.brokers.len() as u64) as usize;
+                let newhost = format!("m{}", rng.below(1000));
+                cl.brokers[i].1 = newhost.clone();
+                out.push(format!("BROKER {} {} {}", cl.brokers[i].0, h(&newhost), cl.brokers[i].2));
+            }
+            3 | 4 => {
+                bump(d, "mut-leader-changed");
+                let nb = cl.brokers.len() as u64;
+                let ti = rng.below(cl.topics.len() as u64) as usize;
+                let p = rng.below(cl.topics[ti].leaders.len() as u64) as usize;
+                let l = if rng.chance(1, 4) { -1 } else { cl.brokers[rng.below(nb) as usize].0 };
+                cl.topics[ti].leaders[p] = l;
+                out.push(format!("LEADER {} {} {}", h(&cl.topics[ti].name), p, l));
+            }
+            5 => {
+                bump(d, "mut-partitions-resized");
+                let ti = rng.below(cl.topics.len() as u64) as usize;
+                let n = 1 + rng.below(5) as usize;
+                let first = cl.brokers[0].0;
+                cl.topics[ti].leaders.resize(n, -1);
+                out.push(format!("TOPIC {} {}", h(&cl.topics[ti].name), n));
+                if rng.chance(1, 2) {
+                    cl.topics[ti].leaders[n - 1] = first;
+                    out.push(format!("LEADER {} {} {}", h(&cl.topics[ti].name), n - 1, first));
+                }
+            }
+            6 => {
+                bump(d, "mut-topic-added");
+                let name = format!("new{}", rng.below(100));
+                if !cl.topics.iter().any(|t| t.name == name) {
+                    let first = cl.brokers[0].0;
+                    cl.topics.push(Topic { name: name.clone(), leaders: vec![first] });
+                    out.push(format!("TOPIC {} 1", h(&name)));
+                    out.push(format!("LEADER {} 0 {}", h(&name), first));
+                }
+            }
+            _ => {}
+        }
+        // load
+        match rng.below(6) {
+            0 | 1 => {
+                bump(d, "load-all");
+                out.push("OP c load_metadata_all".into());
+            }
+            2 | 3 => {
+                bump(d, "load-subset");
+                let k = 1 + rng.below(2);
+                let ts: Vec<String> = (0..k).map(|_| h(&rng.pick(&cl.topics).name)).collect();
+                out.push(format!("OP c load_metadata {}", ts.join(" ")));
+            }
+            4 => {
+                bump(d, "reset");
+                out.push("OP c reset_metadata".into());
+            }
+            _ => {
+                bump(d, "no-load");
+            }
+        }
+        out.push("OP c topics".into());
+        // probe the routing with every partition the cluster has (unknown ones are silently left out)
+        let mut fm = String::from("OP c fetch_messages");
+        for t in &cl.topics {
+            for p in 0..t.leaders.len() {
+                fm.push_str(&format!(" {} {} 0 -1", h(&t.name), p));
+            }
+        }
+        out.push(fm);
+        if rng.chance(1, 2) {
+            let ts: Vec<String> = cl.topics.iter().map(|t| h(&t.name)).collect();
+            out.push(format!("OP c fetch_offsets -1 {}", ts.join(" ")));
+        }
+    }
+    out
+}
